@@ -433,13 +433,17 @@ def _readall_safer_flate(I, c, ins):
     ctx = I.ctx
     if not isinstance(c, Ptr):
         return None
-    st = ctx.load(c)
-    if not isinstance(st, StructV) or len(st) != 2:
-        return None
-    inner = ctx.force(st[0])
-    if not (isinstance(inner, Iface) and inner.dyn == '*verif.flateReader'):
-        return None
-    src = ctx.ghost.get('flate', {}).get(inner.val.cell)
+    if c.cell in ctx.ghost.get('flate', {}):
+        cell = c.cell                       # io.ReadAll(flate.NewReader(r)) without the bounding wrapper
+    else:
+        st = ctx.load(c)
+        if not isinstance(st, StructV) or len(st) != 2:
+            return None
+        inner = ctx.force(st[0])
+        if not (isinstance(inner, Iface) and inner.dyn == '*verif.flateReader'):
+            return None
+        cell = inner.val.cell
+    src = ctx.ghost.get('flate', {}).get(cell)
     if src is not None and src[0] == 'deflate' and src[1] is not None:
         # inflating what the harness deflated gives the (small) document back
         return TupleV((tag_bytes(I, src[1], 'inflated'), None))
